@@ -145,6 +145,37 @@ def check_export(params):
                 % (np.round(eva.real, 4).tolist(), np.round(want.real, 4).tolist()))
     except Exception as e:  # noqa
         bad("backend-raises", "%s: %s" % (type(e).__name__, str(e)[:150]))
+    # 2b. the documented switches of get_counts, one at a time and all off, on a backend that
+    # returns frequency * n_shots: expected value computed from the exact simulation above
+    if params.get("flags", True):
+        for flags in (dict(normalize=False), dict(post_select=False), dict(scale=False),
+                      dict(normalize=False, post_select=False, scale=False, n_shots=64), dict(n_shots=7)):
+            shots = flags.get("n_shots", 2 ** 10)
+            exp = {}
+            for bits, p in sim.items():
+                if p <= 1e-15:
+                    continue
+                if flags.get("post_select", True):
+                    if not all(bits[i] == v for i, v in t.post_selection.items()):
+                        continue
+                    bits = tuple(b for i, b in enumerate(bits) if i not in t.post_selection)
+                exp[bits] = exp.get(bits, 0) + p
+            tot = sum(sim.values())
+            for bits in exp:
+                exp[bits] = exp[bits] / tot if flags.get("normalize", True) else exp[bits] * shots
+                if flags.get("scale", True):
+                    exp[bits] = exp[bits] * t.scalar
+            try:
+                be = tketsim.ExactBackend(by_shots=True)
+                got = c.get_counts(be, **flags)
+            except Exception as e:  # noqa
+                bad("backend-flags-raise", "get_counts(backend, %s) raised %s: %s" % (flags, type(e).__name__, str(e)[:120]))
+                break
+            keys = set(exp) | set(got)
+            if be.seen_shots != [shots] or any(abs(got.get(k, 0) - exp.get(k, 0)) > 1e-7 * max(1, shots) for k in keys):
+                bad("backend-flags", "get_counts(backend, %s) = %r (backend asked for %s shots), expected %r"
+                    % (flags, got, be.seen_shots, {k: np.round(v, 6) for k, v in exp.items()}))
+                break
     # 3. re-import
     try:
         back = Circuit.from_tk(t)
